@@ -20,6 +20,9 @@ variable {α : Type}
 /-- `iter(MatchTraverser(...))`: a fresh iterator -/
 def freshIter : St α := {}
 
+/-- `MatchTraverser.__iter__`: the next action is `init_action`; nothing else is touched -/
+def reiter (st : St α) : St α := { st with act := .init }
+
 /-- is the data source a `Match` (nested traverser) -/
 def Src.isNested : Src α → Bool
   | .doc _ => false
